@@ -215,6 +215,47 @@ def main():
                 fails.append({"what": "%s connection cut after %d of %d packets, next to %s: %s" % (kind, j, len(full), [c.kind for c in conns[1:]], why),
                               "capture": case.capture.hex(), "keylog": case.keylog, "args": []})
             a.packets = full
+    # unrelated traffic from a QUIC server's own address: 1-RTT-looking datagrams towards another client, whose handshake the capture does not
+    # have (nothing of that flow can be exported), next to a connection of the same server -- with connection IDs of every length, zero
+    # included (nothing but the addresses tells such a connection's datagrams from the strangers')
+    for i in range(6 if ck.tier == "quick" else 60):
+        ccl = [0, 0, 8, 0, 4, 0][i % 6]
+        v = pool.quic_conn(rng, hist, idx=1, napp=rng.choice([6, 10]), client_cid_len=ccl, server_cid_len=rng.choice([0, 8]))
+        other = pool.quic_conn(rng, hist, idx=2, napp=3) if i % 2 else None
+        c2 = capgen.Endpoint(v.s.client.mac, bytes(v.s.client.ip[:-1]) + bytes([(v.s.client.ip[-1] + 7) % 256]), rng.choice([v.s.client.port, 40000 + i]))
+        stray = []
+        for _ in range(8):
+            pl = bytearray(rng.randrange(256) for _ in range(rng.choice([30, 60, 200])))
+            pl[0] = 0x40 | (pl[0] & 0x3f)
+            stray.append({"ts": 0, "frame": synth.udp_frame(v.s.server.mac, c2.mac, v.s.server.ip, c2.ip, v.s.server.port, c2.port, bytes(pl)), "isserver": True, "len": 0})
+        sc = tlsgen.Scenario()
+        sc.client, sc.server, sc.keylog = c2, v.s.server, ""
+        nz = pool.Conn("noise", sc, stray)
+        # the strangers arrive once the connection is established: after its first third
+        head = max(2, len(v.packets) // 3)
+        vh, vt = list(v.packets[:head]), list(v.packets[head:])
+        tail = capgen.merge(rng, [vt, stray])
+        pk = [dict(p_) for p_ in vh] + tail
+        for k_, p_ in enumerate(pk):
+            p_["ts"] = 1_700_000_000_000_000 + 1000 * k_
+        v.packets = [p_ for p_ in pk if any(p_["frame"] is q["frame"] for q in vh + vt)]
+        conns = [v, nz]
+        cap = capgen.to_pcapng(pk)
+        keylog = v.s.keylog
+        if other is not None:
+            base = pk[-1]["ts"]
+            op = [dict(p_, ts=base + 1000 * (k_ + 1)) for k_, p_ in enumerate(other.packets)]
+            other.packets = op
+            cap = capgen.to_pcapng(pk + op)
+            keylog = keylog + other.s.keylog
+            conns.append(other)
+        args = ["-a"] if i % 3 == 0 else []
+        why = union_check(impl, conns, cap, keylog, args)
+        hist["stray-1rtt/client_cid_len=%d" % ccl] += 1
+        ck.case(("c04-stray", i, cap[-40:]))
+        if why:
+            fails.append({"what": "QUIC connection (client connection ID of %d bytes) and 8 short-header datagrams from its server's address to another client, options %s: %s" % (ccl, args, why),
+                          "capture": cap.hex(), "keylog": keylog, "args": args})
     # the secrets inside the capture: every connection's key-log lines in a Decryption Secrets Block of its own, right before the
     # connection's first packet (no -s); alone: the same block in front
     for i in range(3 if ck.tier == "quick" else 40):
